@@ -10,7 +10,7 @@ Router.clients and Router.blob_routing.
 """
 import itertools
 
-from harness import Query, enc_opt, enc_str
+from harness import enc_bool, Query, enc_opt, enc_str
 import comp_codec
 
 NAME = "router"
@@ -60,7 +60,87 @@ def enc_reaction(i, r):
 def run_impl(case, outcome):
     if case.get("op") == "rhist":
         return run_reentrant(case, outcome)
+    if case.get("op") == "defaults":
+        return run_defaults(case, outcome)
     return run_plain(case, outcome)
+
+
+def run_defaults(case, outcome):
+    """the same history on routers that differ ONLY in DEFAULT_BLOB_POLICY (the class default, a subclass, an instance
+    attribute): what a client receives from a device for which it has itself sent an enableBLOB since it registered is
+    decided by that setting and must not depend on the router's default"""
+    from indi.routing import Client, Device, Router
+
+    def run(make_router):
+        router = make_router()
+        log = []
+
+        class RecCli(Client):
+            def __init__(self, ident):
+                self.ident = ident
+
+            def message_from_device(self, msg):
+                log.append(self.ident)
+
+        class Dev(Device):
+            def __init__(self, name):
+                self.name = name
+
+            def accepts(self, device):
+                return device is None or device == self.name
+
+            def message_from_client(self, msg):
+                pass
+
+        clis, devs, out = {}, {}, []
+        explicit = set()
+        for op in case["ops"]:
+            del log[:]
+            judged = None
+            if op[0] == "D":
+                devs[op[1]] = Dev(op[2])
+                router.register_device(devs[op[1]])
+            elif op[0] == "C":
+                clis.setdefault(op[1], RecCli(op[1]))
+                router.register_client(clis[op[1]])
+                explicit = {k for k in explicit if k[0] != op[1]}
+            elif op[0] == "U":
+                if op[1] in clis:
+                    router.unregister_client(clis[op[1]])
+                explicit = {k for k in explicit if k[0] != op[1]}
+            else:
+                _, tag, device, policy, sender = op
+                sd = None if sender == "n" else (clis.get(int(sender[1:])) if sender[0] == "c" else devs.get(int(sender[1:])))
+                msg = make_message(tag, device, policy)
+                if tag == "enableBLOB" and sender[0] == "c" and clis.get(int(sender[1:])) in router.clients:
+                    explicit.add((int(sender[1:]), getattr(msg, "device")))
+                router.process_message(msg, sd)
+                if tag != "enableBLOB" and getattr(msg, "from_device", False):
+                    judged = sorted(c for c in set(log) if (c, getattr(msg, "device")) in explicit), \
+                        sorted(c for c in clis if (c, getattr(msg, "device")) in explicit)
+            out.append(judged)
+        return out
+
+    from indi.routing import Router as R0
+
+    class AlsoRouter(R0):
+        DEFAULT_BLOB_POLICY = "Also"
+
+    def only_instance():
+        r = R0()
+        r.DEFAULT_BLOB_POLICY = "Only"
+        return r
+
+    base = run(R0)
+    qs = []
+    outcome.nontrivial.add(str(case["ops"]))
+    for label, mk in (("a subclass with DEFAULT_BLOB_POLICY = Also", AlsoRouter), ("an instance with DEFAULT_BLOB_POLICY = Only", only_instance)):
+        other = run(mk)
+        bad = [(i, case["ops"][i], a, b) for i, (a, b) in enumerate(zip(base, other)) if a != b]
+        outcome.count("router-default-variant")
+        qs.append(Query("spec istrue %s" % enc_bool(not bad), "True", "oracle",
+                        "on %s, clients that set their own policy for the device receive something else than on a plain Router: %s" % (label, bad[:2])))
+    return qs
 
 
 def run_reentrant(case, outcome):
@@ -335,6 +415,13 @@ def gen_c05(rng, tier):
                 ops += sweep([0, 1], clis, ["setBLOBVector", "setTextVector"], senders=["d0"])
                 yield {"op": "hist", "ops": ops}
     yield from gen_random(rng, 200 if tier == "thorough" else 40, DEVICE_TAGS + ["enableBLOB", "enableBLOB", "newTextVector"])
+    # the router's default policy is configurable (class attribute): explicit settings must not depend on it
+    for n, case in enumerate(gen_random(rng, 120 if tier == "thorough" else 30, DEVICE_TAGS + ["enableBLOB", "enableBLOB", "enableBLOB"])):
+        yield {"op": "defaults", "ops": case["ops"]}
+    for pols in itertools.product(POLICIES, repeat=2):
+        ops = [["D", 0, "A"], ["C", 10], ["C", 11], ["S", "enableBLOB", "A", pols[0], "c10"], ["S", "enableBLOB", "A", pols[1], "c10"],
+               ["S", "enableBLOB", "A", pols[1], "c11"]] + [["S", tg, "A", None, "d0"] for tg in ("setBLOBVector", "setTextVector", "defTextVector")]
+        yield {"op": "defaults", "ops": ops}
 
 
 def gen_random(rng, n, tags):
